@@ -50,3 +50,5 @@ CONSTANTS
  LateFrames = FALSE
  CrossVersion = FALSE
  Restore = TRUE
+ Regulate_ = FALSE
+ OptFlips = {}
